@@ -660,7 +660,11 @@ def run(res):
   x_ok, x_out = coq_out["c02_ext"]
   if not x_ok:
     res.obligation("model-run:c02_ext", False, x_out[-1500:])
-  X.evaluate(res, x_arg, x_st, x_progs, x_impl, common.parse_coq_eval(x_out) if x_ok else [])
+  arg_fixed, probe_ok, probe_detail = X.probe_variant()
+  res.obligation("argsite:variant-probe (Signature.iter_args is entirely the fixed or entirely the old code)", probe_ok,
+                 "probe verdicts %r" % (probe_detail,))
+  res.extra["argsite_variant"] = "fixed (fixes/C02-iter-args-keyword-binding.patch)" if arg_fixed else "before-fix"
+  X.evaluate(res, x_arg, x_st, x_progs, x_impl, common.parse_coq_eval(x_out) if x_ok else [], arg_fixed)
   if p_batches:
     p_ok, p_out = coq_out["c02_proto"]
     if not p_ok:
